@@ -47,6 +47,38 @@ Theorem ingest_in_bounds_current_tree :
 Proof. exact (table_safe_in_bounds Gen.Ladder.table). Qed.
 Print Assumptions ingest_in_bounds_current_tree.
 
+(* Without the hypothesis on the oracle: for every table that additionally records
+   that DedupeEdge keeps halfedgeTangent_ as long as halfedge_ when it adds faces
+   (ladder_table_safe_strong; translator reads src/edge_op.cpp), the bounds hold
+   for EVERY number of faces at sort time. *)
+Theorem ingest_in_bounds_all_face_counts :
+  forall (t : list item) (m : meshgl) (o : oracle),
+    wf m -> small m -> 0 <= nFaceSort o ->
+    ladder_table_safe_strong t = true ->
+    Forall in_bounds (accesses t m o).
+Proof. exact table_safe_strong_in_bounds. Qed.
+Print Assumptions ingest_in_bounds_all_face_counts.
+
+(* The hypothesis nFaceSort <= NumTri is NOT discharged by the code before
+   hooks/fix_C09_14.patch: a 2 x 3 torus grid (12 triangles, tangents of the right
+   length) is accepted, DedupeEdge adds 6 faces (oracle value replayed from the
+   implementation by the harness) and the tangent gather reads [0,54) of 36.
+   With the fix the same record is in bounds. *)
+Theorem face_count_hypothesis_refuted :
+  ladder_table_safe patched_table = true /\ ladder_table_safe_strong patched_table = false /\
+  ladder patched_table w_torus o_torus = Accepted /\ numTriI w_torus = 12 /\
+  first_oob (accesses patched_table w_torus o_torus) = Some (AccRange ATangentInternal 0 54 36) /\
+  first_oob (accesses patched14_table w_torus o_torus) = None.
+Proof. exact torus_refuted. Qed.
+Print Assumptions face_count_hypothesis_refuted.
+
+(* entry-time cancel wins over everything else *)
+Theorem cancel_first_wins :
+  forall (t : list item) (m : meshgl) (o : oracle) (e : error),
+    cancelled o = true -> ladder (ICancelGate e :: t) m o = Done e.
+Proof. exact cancel_first. Qed.
+Print Assumptions cancel_first_wins.
+
 (* The constructor with the proposed rungs (table = what the translator reads
    from the patched source) is safe, unconditionally on the table. *)
 Theorem ingest_in_bounds_patched :
